@@ -2,7 +2,9 @@
 # C09: the old and the new framework both define igris::serialize / igris::deserialize and cannot share a TU
 # -> one executable each; and each is built by BOTH clang and gcc, because the library is header-only template
 # code whose behaviour can depend on the compiler (order of evaluation of function arguments: clang evaluates
-# left to right, gcc right to left). 4 executables = 4 runs. Each framework's type family is instantiated in NP
+# left to right, gcc right to left). The two builds also differ in mode: the clang build is the checked/debug build
+# (asserts active, -D_GLIBCXX_ASSERTIONS: libstdc++ precondition checks), the gcc build is the release build (-DNDEBUG:
+# an assert that carries a side effect vanishes). 4 executables = 4 runs. Each framework's type family is instantiated in NP
 # part TUs compiled in parallel, plus one EXTRAS TU (big containers, golden encodings, extra sub-checks).
 set -e
 . $MC/par.sh
@@ -13,12 +15,14 @@ INC="-I$REPO -I$MC -I$H"
 # -ftrivial-auto-var-init=zero (new framework): a truncated decode leaves the unread part of a scalar (e.g. a
 # 16-bit count) uninitialised; the statement does not constrain the decoded value, zero makes the exploration
 # deterministic.
-CLANG_F="-std=c++20 -O1 -gline-tables-only -fsanitize=address -fno-omit-frame-pointer $INC"
+CLANG_F="-std=c++20 -O1 -D_GLIBCXX_ASSERTIONS -gline-tables-only -fsanitize=address -fno-omit-frame-pointer $INC"
 CLANG_N="$CLANG_F -ftrivial-auto-var-init=zero -enable-trivial-auto-var-init-zero-knowing-it-will-be-removed-from-clang"
-GCC_F="-std=c++20 -O1 -g1 -fsanitize=address -fno-omit-frame-pointer $INC"
+GCC_F="-std=c++20 -O1 -DNDEBUG -g1 -fsanitize=address -fno-omit-frame-pointer $INC"
 GCC_N="$GCC_F -ftrivial-auto-var-init=zero"
 
-par clang++ -std=c++17 -O2 -c -I$MC $MC/mc.cpp -o $BUILD/mc.o
+# the engine is compiled per flavour with the same library-mode defines (one definition of every inline std:: function per executable)
+par clang++ -std=c++17 -O2 -D_GLIBCXX_ASSERTIONS -c -I$MC $MC/mc.cpp -o $BUILD/clang_mc.o
+par g++ -std=c++17 -O2 -c -I$MC $MC/mc.cpp -o $BUILD/gcc_mc.o
 par clang++ $CLANG_F -c $H/c09_main.cpp -o $BUILD/clang_main.o
 par g++ $GCC_F -c $H/c09_main.cpp -o $BUILD/gcc_main.o
 
@@ -36,15 +40,15 @@ compile() { # <tag> <compiler> <fw> <np> <flags...>
   done
   par $cxx "$@" -DEXTRAS -DPART=$np -DNPARTS=$np -c $H/c09_$fw.cpp -o $BUILD/${tag}_${fw}x.o
 }
-compile clang clang++ old $NP_OLD $CLANG_F -DC09_COMPILER='"clang"'
-compile clang clang++ new $NP_NEW $CLANG_N -DC09_COMPILER='"clang"'
-compile gcc g++ old $NP_OLD $GCC_F -DC09_COMPILER='"gcc"'
-compile gcc g++ new $NP_NEW $GCC_N -DC09_COMPILER='"gcc"'
+compile clang clang++ old $NP_OLD $CLANG_F -DC09_COMPILER='"clang,checked"'
+compile clang clang++ new $NP_NEW $CLANG_N -DC09_COMPILER='"clang,checked"'
+compile gcc g++ old $NP_OLD $GCC_F -DC09_COMPILER='"gcc,NDEBUG"'
+compile gcc g++ new $NP_NEW $GCC_N -DC09_COMPILER='"gcc,NDEBUG"'
 parwait
-par clang++ -fsanitize=address $(objs clang old $NP_OLD) $BUILD/clang_main.o $BUILD/mc.o -o $BUILD/c09_old
-par clang++ -fsanitize=address $(objs clang new $NP_NEW) $BUILD/clang_main.o $BUILD/mc.o -o $BUILD/c09_new
-par g++ -fsanitize=address $(objs gcc old $NP_OLD) $BUILD/gcc_main.o $BUILD/mc.o -o $BUILD/c09_old_gcc
-par g++ -fsanitize=address $(objs gcc new $NP_NEW) $BUILD/gcc_main.o $BUILD/mc.o -o $BUILD/c09_new_gcc
+par clang++ -fsanitize=address $(objs clang old $NP_OLD) $BUILD/clang_main.o $BUILD/clang_mc.o -o $BUILD/c09_old
+par clang++ -fsanitize=address $(objs clang new $NP_NEW) $BUILD/clang_main.o $BUILD/clang_mc.o -o $BUILD/c09_new
+par g++ -fsanitize=address $(objs gcc old $NP_OLD) $BUILD/gcc_main.o $BUILD/gcc_mc.o -o $BUILD/c09_old_gcc
+par g++ -fsanitize=address $(objs gcc new $NP_NEW) $BUILD/gcc_main.o $BUILD/gcc_mc.o -o $BUILD/c09_new_gcc
 parwait
 {
   echo "old $BUILD/c09_old"
